@@ -66,16 +66,42 @@ def downcast_fields(f, fl, l):
     return out
 
 
-def self_fields(f, fl, l):
+def self_fields(f, fl, l, selfs=(1,)):
     out = set()
     src = fl.back_pure([l], stop=lambda x: 0 < x <= f.argc) - set(range(1, f.argc + 1))
     for _, _, s in f.stmts():
         if fl.node(s["pl"]) in src:
             for o in rv_operands(s["rv"]):
                 p = op_place(o)
-                if p and p["l"] == 1:
+                if p and p["l"] in selfs:
                     out |= {e["f"] for e in p["p"] if isinstance(e, dict) and "f" in e}
     return out
+
+
+def self_locals(f):
+    """Locals that are `self` itself: parameter 1 and whole-value copies / reborrows of it (as produced when a helper
+    method taking `&mut self` is inlined)."""
+    out = {1}
+    changed = True
+    while changed:
+        changed = False
+        for _, _, s in f.stmts():
+            if s["pl"]["p"] or s["pl"]["l"] in out:
+                continue
+            rv = s["rv"]
+            src = None
+            if rv["k"] == "use":
+                src = op_place(rv["op"])
+            elif rv["k"] == "ref":
+                src = rv["pl"]
+            if src is not None and src["l"] in out and all(e == "*" for e in src["p"]):
+                out.add(s["pl"]["l"])
+                changed = True
+    return out
+
+
+def is_self_field(pl, selfs, name):
+    return pl["l"] in selfs and [e["f"] for e in pl["p"] if isinstance(e, dict) and "f" in e][-1:] == [name]
 
 
 def key_of(fl, l):
@@ -100,13 +126,19 @@ def run(tier="quick", replay=None):
     R.trusted = ["rustc MIR construction"]
     R.assumptions = ["partial: equality of the reported values with the consensus evaluator is value-level (see C06) and not decided",
                      "cldb_hierarchy's grouping and hex_to_modern_sexp are not analysed"]
-    f = prog.fn(STEP)
-    if f is None:
+    f0 = prog.fn(STEP)
+    if f0 is None:
         R.viol("R12", "R12|anchor-lost|step", "compiler::cldb", "anchor lost: CldbRun::step")
         return R.finalize()
+    # private helpers of the same module are inlined: splitting the row production into helper methods (or folding them
+    # back) does not change what the rules see
+    import inline
+    base = inline.default_pred(prog, f0)
+    f = inline.inlined(prog, f0, pred=lambda g: base(g) and inline.same_module(f0, g) and g.path != RUN_STEP, depth=2)
     fl = Flow(f)
     site = "%s:%s" % (f.file, f.line)
     rets = f.return_blocks()
+    SELF = self_locals(f)
 
     # ---------------- R12.field ------------------------------------------------------------------
     inserts = {}
@@ -133,7 +165,7 @@ def run(tier="quick", replay=None):
                         key, var, fld, sorted(got) or "no transition component"), fn=STEP)
     for bb, vl in inserts.get("Row", []):
         nfield += 1
-        R.check("row" in self_fields(f, fl, vl), "R12.field", "R12.field|Row", f.loc(bb),
+        R.check("row" in self_fields(f, fl, vl, SELF), "R12.field", "R12.field|Row", f.loc(bb),
                 "auto: 'Row' is the run's row counter", "the 'Row' entry is not the run's row counter", fn=STEP)
     # context handed to the environment: add_context(env, Op.0, Op.1, Some(Op.2), out)
     ac = [(bb, t) for bb, t in f.calls() if (callee_of(t) or t.get("callee") or "").endswith("add_context")]
@@ -154,28 +186,39 @@ def run(tier="quick", replay=None):
     R.floor("R12.field", "reported fields traced to their transition component", nfield, 7, site)
 
     # ---------------- R12.terminal ---------------------------------------------------------------
-    ended_blocks = [bb for bb, _, s in f.stmts() if s["pl"]["l"] == 1 and
-                    [e["f"] for e in s["pl"]["p"] if isinstance(e, dict) and "f" in e][-1:] == ["ended"]
-                    and s["rv"]["k"] == "use" and (s["rv"]["op"].get("c") or {}).get("int") in (1, "1") or
-                    (s["pl"]["l"] == 1 and [e["f"] for e in s["pl"]["p"] if isinstance(e, dict) and "f" in e][-1:] == ["ended"]
-                     and s["rv"]["k"] == "use" and (s["rv"]["op"].get("c") or {}).get("bool") is True)]
+    def is_true(op):
+        c = (op.get("c") or {}) if op.get("k") == "const" else {}
+        return c.get("bool") is True or c.get("int") in (1, "1")
+    ended_blocks = [bb for bb, _, s in f.stmts() if is_self_field(s["pl"], SELF, "ended") and s["rv"]["k"] == "use" and is_true(s["rv"]["op"])]
     # produce flag: the bool local tested right before the row increment
     inc_blocks = []
     for bb, _, s in f.stmts():
-        if s["pl"]["l"] == 1 and [e["f"] for e in s["pl"]["p"] if isinstance(e, dict) and "f" in e][-1:] == ["row"]:
+        if is_self_field(s["pl"], SELF, "row"):
             inc_blocks.append(bb)
     flag = None
+    # the bool tested by the branch that immediately guards the row-counter increment
+    best = -1
+    doms = f.dominators()
     for bb, b in enumerate(f.blocks):
         t = b["t"]
-        if t["k"] == "switch" and not b.get("cleanup"):
-            l = op_local(t["discr"])
-            if l is not None and f.local_ty(l) == "bool":
-                src = fl.back_pure([l])
-                cand = [x for x in src if x > f.argc and f.local_ty(x) == "bool" and
-                        sum(1 for _, _, s in f.stmts() if s["pl"]["l"] == x and not s["pl"]["p"] and s["rv"]["k"] == "use"
-                            and s["rv"]["op"]["k"] == "const") >= 3]
-                if cand and any(ib in f.reachable(bb) for ib in inc_blocks):
-                    flag = cand[0]
+        if t["k"] != "switch" or b.get("cleanup") or not inc_blocks:
+            continue
+        l = op_local(t["discr"])
+        if l is None or f.local_ty(l) != "bool" or not all(f.dominates(bb, ib) for ib in inc_blocks):
+            continue
+        # the increment must lie on exactly one side of the switch
+        sides = [tgt for tgt in f.succ(bb) if any(ib in f.reachable(tgt, avoid=[x for x in f.succ(bb) if x != tgt]) for ib in inc_blocks)]
+        if len(sides) != 1:
+            continue
+        depth_ = len(doms.get(bb, ()))
+        if depth_ > best:
+            src = fl.back_pure([l], stop=lambda x: 0 < x <= f.argc)
+            cand = [x for x in src if x > f.argc and f.local_ty(x) == "bool" and
+                    sum(1 for _, _, s in f.stmts() if s["pl"]["l"] == x and not s["pl"]["p"] and s["rv"]["k"] == "use"
+                        and s["rv"]["op"]["k"] == "const") >= 2]
+            if cand:
+                best = depth_
+                flag = cand[0]
     set_blocks = []
     if flag is not None:
         for bb, _, s in f.stmts():
@@ -219,7 +262,7 @@ def run(tier="quick", replay=None):
     nones = [bb for bb, _, s in f.stmts() if s["pl"]["l"] == 0 and not s["pl"]["p"] and s["rv"]["k"] == "agg" and s["rv"].get("variant") == "None"]
     incs = []
     for bb, _, s in f.stmts():
-        if s["pl"]["l"] == 1 and [e["f"] for e in s["pl"]["p"] if isinstance(e, dict) and "f" in e][-1:] == ["row"]:
+        if is_self_field(s["pl"], SELF, "row"):
             l = None
             for o in rv_operands(s["rv"]):
                 l = op_local(o) if op_local(o) is not None else l
@@ -247,11 +290,11 @@ def run(tier="quick", replay=None):
         if b.get("cleanup"):
             continue
         for s in b["s"]:
-            if s["pl"]["l"] == 1 and [e["f"] for e in s["pl"]["p"] if isinstance(e, dict) and "f" in e][-1:] == ["step"]:
+            if is_self_field(s["pl"], SELF, "step"):
                 l = [op_local(o) for o in rv_operands(s["rv"]) if op_local(o) is not None]
                 stores.append((bb, l[0] if l else None))
         t = b["t"]
-        if t["k"] == "call" and t["dest"]["l"] == 1 and [e["f"] for e in t["dest"]["p"] if isinstance(e, dict) and "f" in e][-1:] == ["step"]:
+        if t["k"] == "call" and is_self_field(t["dest"], SELF, "step"):
             stores.append((bb, None))
     ok = False
     why = "no store to self.step"
